@@ -177,14 +177,17 @@ func (p *parent) runBatch(cases []Spec) {
 				code = ee.ExitCode()
 			}
 		}
+		// (the race runtime replaces the exit status by 66 when it has reported a race, so
+		// the child's own "exit" event decides, not the status)
 		switch {
-		case code == exitDone && next == -1:
+		case (code == exitDone || code == 66) && next == -1:
 			os.Remove(base + ".log")
 			return
-		case code == exitRestart && next >= 0:
+		case (code == exitRestart || code == 66) && next >= 0:
 			// the child asked for a fresh rig; the case that made it do so has been judged
-			if !doneIDs[next-1] && byID[next-1] != nil {
+			if sp := byID[next-1]; sp != nil && !doneIDs[next-1] {
 				c.Eval()
+				c.Distinct(sp.Key())
 			}
 			cases = after(cases, next-1)
 			continue
@@ -208,6 +211,14 @@ func (p *parent) runBatch(cases []Spec) {
 			witness["exit_code"] = code
 			c.Eval()
 			c.Observe("teamserver_crashes", 1)
+			if sp := byID[curID]; sp != nil {
+				c.Distinct(sp.Key())
+				if sp.EP == "svc" {
+					c.Observe("svc_handshakes", 1)
+				} else {
+					c.Observe("op_handshakes", 1)
+				}
+			}
 			c.Violation("crash:"+msg+"@"+frame, "a message from a connection that has not authenticated killed the teamserver process: "+msg+" in "+frame, witness)
 		} else if ok {
 			c.Inconclusive(fmt.Sprintf("child died at case %d with %q and no teamserver frame on the crashing goroutine (see %s)", curID, msg, base+".log"))
